@@ -97,6 +97,25 @@ def r1(ctx, R):
     R.inst("ordered_preds sorts incoming edges by their index")
     if "sorted(edges, key=lambda elm: elm[0])" not in " ".join(norm(r_.value) for r_ in q.returns(op)):
         R.bad(op, op.node, "direct bases are not ordered by edge index", stmt="sorted")
+    mi = ctx.func("SpaceGraph.max_index")
+    R.inst("max_index = max of the `index` attribute over the incoming edges (not their number)")
+    okm = False
+    for r_ in q.returns(mi):
+        v = q.resolve(mi, r_.value)
+        for c in ast.walk(v) if v is not None else ():
+            if isinstance(c, ast.Call) and norm(c.func) == "max" and c.args:
+                comp = q.origin(mi, c.args[0])
+                if isinstance(comp, (ast.ListComp, ast.GeneratorExp, ast.SetComp)) and len(comp.generators) == 1:
+                    it = comp.generators[0].iter
+                    reads_index = any(isinstance(x, ast.Subscript) and isinstance(x.slice, ast.Constant)
+                                      and x.slice.value == "index" for x in ast.walk(comp.elt))
+                    if reads_index and isinstance(it, ast.Call) and call_name(it) == "in_edges" and it.args \
+                            and norm(it.args[0]) == "node" and not comp.generators[0].ifs:
+                        okm = True
+    if not okm:
+        R.bad(mi, mi.node, "the next base index is not derived from the highest index in use: after a base was removed "
+                           "a new base can get an index that is already taken and the base order is no longer the order "
+                           "in which the bases were given", stmt="max_index")
     for spec in ("SpaceUpdater.new_space", "SpaceUpdater.add_bases"):
         fi = ctx.func(spec)
         ae = [c for c in q.calls(fi, name="add_edge") if kw(c, "index") is not None]
